@@ -37,7 +37,8 @@ for sd in sorted(os.listdir(os.path.join(VERIF, 'seeded'))):
             print(rows[-1], f'{time.time()-t0:.0f}s', flush=True)
     finally:
         subprocess.run(['git', '-C', '/repo', 'worktree', 'remove', '--force', rw])
-subprocess.run(['python3', '-c', 'import sys; sys.path.insert(0, "%s/tools"); import runner; runner.write_gowork()' % VERIF])
+subprocess.run(['python3', '-c', 'import sys, os, subprocess; sys.path.insert(0, "%s/tools"); import runner; runner.write_gowork(); '
+                'subprocess.run([os.path.join(runner.GO, "bin", "extract"), "-repo", "/repo", "-out", os.path.join(runner.LEAN, "RoGen")], env=runner.GOENV)' % VERIF])
 with open(os.path.join(VERIF, 'seeded', 'MATRIX.md'), 'w') as f:
     f.write('# Seeded changes vs checks (quick tier)\n\n| seed | what it changes (from its meta.json) | check | result | reported as |\n|---|---|---|---|---|\n')
     for sd, p, res, why in rows:
